@@ -442,10 +442,9 @@ Section EvalSound.
   Variable okfn : ident -> Prop.
   Hypothesis Hcall : forall f, okfn f -> call_ok call f.
 
-  (* a state at the beginning of the evaluation phase: no thunk or cell is being forced, unforced cells have literal scopes,
+  (* a state at the beginning of the evaluation phase: no cell is being forced, unforced cells have literal scopes,
      the deferred statements are sorted by kind, only functions of okfn are called *)
   Definition evalable2 (s : lstate) : Prop :=
-    (forall i th, nth_error (l_store s) i = Some th -> th_state th <> TForcing) /\
     (forall name c, alist_get name (l_scoped s) = Some c -> match c with SVUnforced ps => scopes_lit ps | SVForcing => False | SVForced _ => True end) /\
     Forall (fun st => is_estmt st /\ lsok okfn st) (l_edges s) /\
     Forall (fun st => is_astmt st /\ lsok okfn st) (l_attrs s) /\
@@ -454,7 +453,7 @@ Section EvalSound.
 
   Lemma sinv_init s : evalable2 s -> sinv t fl call (env_of s) s.
   Proof.
-    intros (Hth & Hc & _). split.
+    intros (Hc & _). split.
     - intros i th Ei. unfold thunk_inv. destruct (th_state th) as [lv| |v] eqn:Est.
       + cbn [env_of se_body]. rewrite Ei. unfold body_of. rewrite Est. reflexivity.
       + exact I.
@@ -470,7 +469,7 @@ Section EvalSound.
       (forall i, (i < length (l_store s))%nat -> exists v, cevv t fl call (env_of s) (LVar (N.of_nat i)) v) /\
       (forall name c, alist_get name (l_scoped s) = Some c -> se_cell (env_of s) name <> None).
   Proof.
-    intros H Hev. pose proof (sinv_init s Hev) as Hs0. destruct Hev as (_ & _ & He & Ha & Hp & HE).
+    intros H Hev. pose proof (sinv_init s Hev) as Hs0. destruct Hev as (_ & He & Ha & Hp & HE).
     unfold evaluate_phase in H. unfold bind at 1, get_state at 1 in H.
     apply bind_ok in H as (u1 & s1 & p1 & E1 & H). apply bind_ok in H as (u2 & s2 & p2 & E2 & H). apply bind_ok in H as (u3 & s3 & p3 & E3 & H).
     apply bind_ok in H as (u4 & s4 & p4 & E4 & H).
